@@ -1,6 +1,8 @@
 """C18 - PCM byte codecs are exact: chunk packing and WAV sample decoding."""
 import io
 import os
+from collections import deque
+from collections.abc import Sequence
 import shutil
 import struct
 import tempfile
@@ -16,11 +18,15 @@ ID = "C18"
 RULE = ("chunks cases = (strategy struct/array/default, format b h i f d B H, byte order "
         "None < > = ! @, chunk size 1..300 or None (chunks.size), a short base list of "
         "in-range values incl. the extremes cycled to a length 0..3*size+delta, pad value "
-        "or default, source kind, positional/keyword call); oracle = one-shot "
+        "or default, source kind list/tuple/iterator/generator/Stream/array.array/collections.deque/"
+        "user Sequence answering integer indexes only/object with only __getitem__, "
+        "positional/keyword call); oracle = one-shot "
         "struct.pack(order + str(n) + fmt, *(xs + pads)) compared with the joined chunks, "
         "each chunk size*itemsize bytes, struct.unpack of the join gives the padded "
         "sequence. WAV cases = (width 1..4, channels 1..2, sample list incl. min/max/-1/0, "
-        "rate, keep, open route path/file object/BytesIO, placement of the WAV inside the opened "
+        "rate 0..2**32-1 (0, the 32-bit extremes and every rate whose byte rate overflows 32 bits "
+        "included: the header is then written with rate 1 and its rate / byte-rate fields are set "
+        "by hand), keep, open route path/file object/BytesIO, placement of the WAV inside the opened "
         "object: alone at offset 0 / after a foreign preamble / after another WAV (other header, "
         "same header and more frames, same header and every low bit flipped) / between two WAVs "
         "/ followed or surrounded by foreign bytes - the object is handed over positioned at the "
@@ -37,6 +43,9 @@ ASSUMPTIONS = [
   "byte order None means struct's native mode; for the formats used (b h i f d B H) native "
   "and standard sizes coincide on this platform and array item sizes equal struct sizes",
   "WAV files are produced by wave.open(..., 'wb') on a little-endian host; only PCM mono/stereo",
+  "the header's rate field is any unsigned 32-bit value: what the fmt chunk can store and the "
+  "stdlib reader reports, not only what wave.setframerate agrees to write; the dependent byte-rate "
+  "field holds rate*channels*width modulo 2**32 (the reader does not look at it)",
   "'the file is closed' is observed as: no /proc/self/fd entry resolves to the temp path "
   "(path route) and the wave reader held by the stream reports getfp() is None; a file object "
   "supplied by the caller stays the caller's responsibility (the wave module never closes it)",
@@ -85,16 +94,41 @@ def strat_chunks(tier):
       blocks=st.integers(0, 3),        # number of complete chunks
       extra=st.integers(0, 400),       # ragged tail length, taken modulo size
       pad=st.one_of(st.just("default"), _values(dfmt), _values(dfmt)),
-      src=st.sampled_from(["list", "iter", "stream", "gen", "tuple", "array", "array"]),
+      src=st.sampled_from(["list", "iter", "stream", "gen", "tuple", "array", "array",
+                           "deque", "deque", "intseq", "intseq", "getitem"]),
       kw=st.booleans(),
     ))
   return st.sampled_from(FMTS).flatmap(body)
+
+
+class IntSeq(Sequence):
+  """A user Sequence (abc mixins for the rest) whose __getitem__ answers integer indexes only."""
+  def __init__(self, data):
+    self._data = list(data)
+  def __len__(self):
+    return len(self._data)
+  def __getitem__(self, idx):
+    if isinstance(idx, bool) or not isinstance(idx, int):
+      raise TypeError("sequence index must be integer, not '%s'" % type(idx).__name__)
+    return self._data[idx]
+
+
+class GetItemOnly(object):
+  """Iterable through the old protocol only: __getitem__(0), (1), ... until IndexError."""
+  def __init__(self, data):
+    self._data = list(data)
+  def __getitem__(self, idx):
+    if isinstance(idx, bool) or not isinstance(idx, int):
+      raise TypeError("index must be integer, not '%s'" % type(idx).__name__)
+    return self._data[idx]
 
 
 def _chunks_call(case, xs, pad):
   f = {"struct": chunks.struct, "array": chunks.array, "default": chunks}[case["strategy"]]
   import array as _array
   src = {"list": list, "iter": iter, "stream": Stream, "tuple": tuple,
+         "deque": deque,        # a registered Sequence that refuses slices
+         "intseq": IntSeq, "getitem": GetItemOnly,
          "array": lambda v: _array.array(case["dfmt"], v),   # already packed input of the same type code
          "gen": lambda v: (x for x in v)}[case["src"]](xs)
   kwargs = {}
@@ -164,7 +198,10 @@ def run_chunks(case):
     raise Violation("%s: unpacking gives %r..., expected %r..." % (what, back[:6], padded[:6]),
                     site=site)
 
-  labels = ["strategy:" + case["strategy"], "fmt:" + dfmt, "order:%s" % order]
+  labels = ["strategy:" + case["strategy"], "fmt:" + dfmt, "order:%s" % order,
+            "src:" + case["src"]]
+  if case["src"] in ("deque", "intseq") and length >= size:
+    labels.append("unsliceable Sequence holding a whole chunk")
   if n > length:
     labels.append("padded tail")
   if length == 0:
@@ -201,6 +238,23 @@ def chunk_grid(tier, shard, nshards):
             if i % nshards == shard:
               yield dict(strategy=strategy, dfmt=dfmt, order=order, size=size, base=base,
                          blocks=blocks, extra=extra, pad=base[1], src="iter", kw=bool(i % 2))
+  # sources that are Sequences without slice support (deque, integer-index-only user Sequence) or
+  # iterable through __getitem__ alone: every strategy x format, shorter / equal / longer than a chunk
+  for strategy in ("struct", "array", "default"):
+    for dfmt in FMTS:
+      if dfmt in INT_RANGE:
+        lo, hi = INT_RANGE[dfmt]
+        base = [hi, lo, 0, 1, lo + 1, hi - 1, 2]
+      else:
+        base = [2.5, -0.75, 0., -3., 0.0009765625, 7., -0.]
+      for order in (None, "<", ">"):
+        for size in (1, 2, 5, 128, 257):
+          for src in ("deque", "intseq", "getitem"):
+            for blocks, extra in ((1, 0), (3, 0), (2, 1), (0, size - 1), (1, size - 1)):
+              i += 1
+              if i % nshards == shard:
+                yield dict(strategy=strategy, dfmt=dfmt, order=order, size=size, base=base,
+                           blocks=blocks, extra=extra, pad=base[0], src=src, kw=bool(i % 2))
 
 
 # --------------------------------------------------------------------- WAV
@@ -224,8 +278,7 @@ def strat_wav(tier):
       ch=st.sampled_from([1, 2]),
       vals=st.lists(val, max_size=2 * maxfr),
       keep=st.booleans(),
-      rate=st.one_of(st.sampled_from([8000, 44100, 48000, 1, 192000]),
-                     st.integers(1, 2 ** 28)),   # rate*channels*width must fit the 32-bit byte-rate field
+      rate=st.sampled_from(RATE_KINDS).flatmap(RATES.__getitem__),
       how=st.sampled_from(HOWS),
       pre=st.binary(min_size=1, max_size=48),   # foreign bytes around the WAV (placements with pre/tail)
       decoy=st.sampled_from(DECOYS),            # the other WAV stored in the same container
@@ -233,6 +286,29 @@ def strat_wav(tier):
       consume=st.sampled_from(["list", "list", "next", "take"]),
     )).map(_split_how)
   return st.sampled_from([1, 2, 3, 4]).flatmap(body)
+
+
+# The fmt chunk stores the rate as an unsigned 32-bit integer and the reader reports it as stored.  The
+# wave *writer* only takes rate >= 1 with rate*channels*width < 2**32 (its byte-rate field): the
+# other header values are reached by patching the written header (_write).
+RATES = {
+  "common": st.sampled_from([8000, 44100, 48000, 1, 192000, 11025, 22050, 96000]),
+  "writable": st.integers(1, 2 ** 28),
+  "zero": st.just(0),
+  "edge32": st.sampled_from([2 ** 32 - 1, 2 ** 32 - 2, 2 ** 31, 2 ** 31 - 1, 2 ** 31 + 1, 2 ** 30,
+                             2 ** 29, 2 ** 28 + 1, 2 ** 24, 2 ** 16, 2 ** 16 - 1, 2 ** 16 + 1,
+                             44100 << 16, 0xffff0000, 0x0000ac44 | 0x80000000, 2, 3, 255, 256]),
+  "any32": st.integers(0, 2 ** 32 - 1),        # (drawn with a bias towards the small values)
+  "high32": st.integers(2 ** 31, 2 ** 32 - 1),
+  "over28": st.integers(2 ** 28 + 1, 2 ** 32 - 1),
+}
+RATE_KINDS = ["common", "common", "writable", "writable", "writable", "zero", "zero", "edge32",
+              "any32", "high32", "high32", "over28"]
+
+
+def _writable(rate, ch, width):
+  """Does wave.open(..., 'wb') agree to write this rate?"""
+  return rate >= 1 and rate * ch * width < 2 ** 32
 
 
 # (open route, placement of the wanted WAV inside the opened object).  A name can only denote a file
@@ -300,6 +376,23 @@ def _raw(vals, width):
 
 
 def _write(target, case, vals):
+  rate, ch, width = case["rate"], case["ch"], case["width"]
+  if not _writable(rate, ch, width):
+    # the writer refuses this header: write it with rate 1, then set the 4-byte rate field and
+    # the byte-rate field that depends on it (modulo 2**32; the reader ignores it) by hand
+    buf = io.BytesIO()
+    _write(buf, dict(case, rate=1), vals)
+    blob = bytearray(buf.getvalue())
+    if bytes(blob[:4]) != b"RIFF" or bytes(blob[8:16]) != b"WAVEfmt " or \
+       struct.unpack_from("<II", blob, 24) != (1, ch * width):
+      raise RuntimeError("harness: unexpected layout of the header written by the wave module")
+    struct.pack_into("<II", blob, 24, rate, (rate * ch * width) & 0xffffffff)
+    if hasattr(target, "write"):
+      target.write(bytes(blob))
+    else:
+      with open(target, "wb") as f:
+        f.write(bytes(blob))
+    return
   w = wave.open(target, "wb")
   try:
     w.setnchannels(case["ch"])
@@ -421,6 +514,12 @@ def run_wav(case):
   if nfr == 0:
     labels.append("no frames")
   labels.append("place:" + place)
+  if case["rate"] == 0:
+    labels.append("rate:0")
+  if case["rate"] >= 2 ** 31:
+    labels.append("rate>=2**31")
+  if not _writable(case["rate"], ch, width):
+    labels.append("rate beyond the wave writer (header patched)")
   if offset > 0:
     labels.append("RIFF header at offset>0")
     if place in ("after_wav", "between"):
@@ -486,6 +585,24 @@ def wav_grid(tier, shard, nshards):
                        route=("path", "fileobj", "bytesio")[j % 3], place=PLACES[1 + j % 4],
                        pre=b"\x7f" * (1 + j % 9), decoy=DECOYS[j % 3], dn=j % 7,
                        consume=("list", "next", "take")[(j + 1) % 3])
+  # header rates at and beyond what the wave writer agrees to write: 0, the largest rate whose byte rate
+  # fits 32 bits and the next one, 2**31, 2**32-1; every width x channels x keep x open route
+  k = 0
+  for width in (1, 2, 3, 4):
+    lo, hi = _lohi(width)
+    mid = 128 if width == 1 else 0
+    probes = [mid - 1, lo, hi, mid, mid + 1, hi - 1, lo + 1, mid - 2]
+    for ch in (1, 2):
+      top = (2 ** 32 - 1) // (ch * width)      # largest rate the writer takes
+      for keep in (False, True):
+        for route in ("path", "fileobj", "bytesio"):
+          for rate in (0, top, min(top + 1, 2 ** 32 - 2), 2 ** 31, 2 ** 32 - 1, 1):
+            k += 1
+            if k % nshards == shard:
+              place = "start" if route == "path" or k % 2 else PLACES[k // 2 % len(PLACES)]
+              yield dict(width=width, ch=ch, vals=probes[:len(probes) - 2 * (k % 3 == 0)], keep=keep,
+                         rate=rate, route=route, place=place, pre=pres[k % len(pres)],
+                         decoy=DECOYS[k % 3], dn=k % 5, consume=("list", "next", "take")[k % 3])
   if tier == "thorough" and shard == 0:
     # every 8-bit and every 16-bit value once
     yield dict(width=1, ch=1, vals=list(range(256)), keep=True, rate=8000, route="bytesio",
@@ -501,12 +618,18 @@ CLAUSES = [
   Clause("chunks", strat_chunks, run_chunks, quick=3000, thorough=50000, fuzz={"thorough": 60000},
          floors={"strategy:struct": .1, "strategy:array": .1, "strategy:default": .05,
                  "padded tail": .15, "multi-chunk": .1, "size>128": .03,
-                 "non-native multi-byte": .05, "order:None": .08},
+                 "non-native multi-byte": .05, "order:None": .08,
+                 "src:deque": .04, "src:intseq": .04, "src:getitem": .02, "src:list": .02,
+                 "src:array": .04, "unsliceable Sequence holding a whole chunk": .06},
          doc="joined chunks == one-shot struct.pack for both strategies, every byte order; "
-             "chunk length size*itemsize; unpack gives sequence + pads"),
+             "chunk length size*itemsize; unpack gives sequence + pads; inputs: list, tuple, "
+             "iterator, generator, Stream, array.array, deque, integer-index-only Sequence, "
+             "__getitem__-only object"),
   Enumerated("chunk_grid", chunk_grid, run_chunks, shards={"quick": 8, "thorough": 16},
              doc="strategy x format x byte order x sizes around 127/128/255/256 x "
-                 "(2 full chunks, 1 full + 1 item, size-1 items)"),
+                 "(2 full chunks, 1 full + 1 item, size-1 items); strategy x format x 3 byte "
+                 "orders x 5 sizes x unsliceable Sequence / __getitem__-only inputs shorter, "
+                 "equal to and longer than a chunk"),
   Clause("wav", strat_wav, run_wav, quick=2500, thorough=40000, fuzz={"thorough": 60000},
          floors={"width:8": .08, "width:16": .08, "width:24": .08, "width:32": .08,
                  "stereo": .15, "keep": .15, "scaled": .15, "negative sample": .2,
@@ -514,14 +637,17 @@ CLAUSES = [
                  "RIFF header at offset>0": .1, "place:start": .15, "place:preamble": .025,
                  "place:after_wav": .025, "place:between": .025, "place:pre_tail": .025,
                  "place:tail": .025, "decoy:other": .015, "decoy:longer": .015,
-                 "decoy:flipped": .015},
+                 "decoy:flipped": .015, "rate:0": .05, "rate>=2**31": .04,
+                 "rate beyond the wave writer (header patched)": .1},
          doc="WavStream on files written by the wave module, given by name, as an open file "
              "object or BytesIO standing at the RIFF header (alone, after foreign bytes, after / "
-             "between other WAVs): keep/scaled values, types, [-1,1), header mirror, closed "
+             "between other WAVs): keep/scaled values, types, [-1,1), header mirror for every "
+             "32-bit rate field value (0 and rates the writer refuses by header patch), closed "
              "after exhaustion"),
   Enumerated("wav_grid", wav_grid, run_wav, shards={"quick": 8, "thorough": 16},
              doc="width x channels x keep x open route x consumption route on boundary "
                  "samples; x placement inside a container for file objects (preamble, after / "
-                 "between other WAVs, trailing bytes; empty and long files too) "
+                 "between other WAVs, trailing bytes; empty and long files too); x header rate "
+                 "0 / largest writable / first unwritable / 2**31 / 2**32-1 "
                  "(thorough: every 8- and 16-bit value)"),
 ]
